@@ -6,7 +6,8 @@ import Bclv.Proofs.DumpLoad
 `dumpW_spec`: for every program the sequence of `Write` calls never indexes past the scratch
 slice, the destination receives non-empty writes, and their concatenation is `dump p`.
 -/
-namespace Bclv
+namespace Bclv.Buf
+open Bclv
 
 theorem uvEnc_length_le (x : Nat) : (uvEnc x).length ≤ 9 := by
   unfold uvEnc
@@ -184,4 +185,4 @@ theorem dumpW_spec (p : Prog) :
     rw [Wr.write_total, Wr.write_total, t0]
     simp [dump, magic]
 
-end Bclv
+end Bclv.Buf
